@@ -109,6 +109,8 @@ def _generate_slice(ns, node):
         else:
             sr = f"[{node.start}]"
     r, s = _generate_expression(ns, node.value)
+    if sr == "" and s:
+        r = "{" + r + "}" # Keep a 1-bit signed operand unsigned.
     return r + sr, False # A slice is unsigned.
 
 # Print Cat ----------------------------------------------------------------------------------------
